@@ -8,7 +8,7 @@ import gen
 from core import fr, w_rat, w_rats, p_rats, cmp_exact, cmp_budget, call_impl
 from _c17_common import norm_res, cmp_seq, cmp_rows, w_rows, p_rows, DYADIC_DTS
 
-PROP_MODULES = ['C03', 'C03a']
+PROP_MODULES = ['C03', 'C03a', 'C03Gen']
 
 RULE = ("spectra: records n in 2..400 (quick) / 3000 of shapes hat/noise/sine/step/spike/int/1e+-6/zero, dt dyadic or in 10^[-3,0], 1..6 periods "
         "per call with T/dt log-uniform in [0.2, 2e4] or in {0.2,1,5.9,6,6.1,20}, optional leading 0, xi in {0,1e-3,0.05,0.3,0.7,0.99} u U[0,1), "
@@ -18,7 +18,7 @@ RULE = ("spectra: records n in 2..400 (quick) / 3000 of shapes hat/noise/sine/st
         "energy spectra on the same response series + realistic records (enveloped noise, n >= 200, T/dt >= 6, xi >= 0.02) + the short / "
         "coarse / lightly damped / narrow-band cases of F03-2; asi/vsi at the default grids and custom period arrays (>= 2 and 1 entries). "
         "distinct = hash of (function, record, dt, periods, xi, options); non-trivial = length >= 3 and not constant")
-TIE = ("correspondence (hand model Model/SpectraFns.lean on exact rationals, fed with the impl's response rows; the response rows themselves "
+TIE = ("translator (PGA-substitution factor of both functions regenerated into Gen/Consts, bridge Props/C03Gen) + correspondence (hand model Model/SpectraFns.lean on exact rationals, fed with the impl's response rows; the response rows themselves "
        "are tied by C01: generated compute_a_and_b + recurrence)")
 NOT_PROVED = ["finiteness in floating point (checked on every case)",
               "C03.d 's_a never below the raw value' in the corner 6*dt' <= T < 6*dt: false of code and model (open finding F03-1)",
